@@ -404,6 +404,12 @@ def run_sharded(binary, subcmd, profile, behaviours, extra_args=None, shards=Non
                     merged.setdefault(k, []).extend(v or [])
                 elif isinstance(v, (int, float)):
                     merged[k] = merged.get(k, 0) + v
+                elif isinstance(v, dict):
+                    # per-key counters (e.g. crash images per point)
+                    dst = merged.setdefault(k, {})
+                    for kk, vv in v.items():
+                        if isinstance(vv, (int, float)):
+                            dst[kk] = dst.get(kk, 0) + vv
                 elif v is None:
                     merged.setdefault(k, [])
         return merged
